@@ -16,7 +16,7 @@ theorem Inv.wCons {s : State} (hI : Inv s) {h f v n ver : Nat} (hp : s.pc (.fr h
     rw [hfo.2.1] at this; cases this
   obtain ⟨kindC, kindF, lockOk, frWait, freshOk, freshUniq, freshVer, freshVerT, freshNode, wFreeTaken, preOk, postOk, ownOk, rsmTaken,
     freeTaken, pubNode, waiting, parked, listOk, scanOk, prevOk, placed, oScanOk, oNoneOk, aUnlockOk, aNextOk, aResumeOk, aFreeOk,
-    noRead, cTakeOk, allocUsed, noBad⟩ := hI
+    noRead, cTakeOk, cRemoveOk, allocUsed, noBad⟩ := hI
   have hmem : ∀ g m, MemOk s g m → m ≠ n →
       MemOk (({ s with node := upd s.node n { prev := .null, next := none, fut := f, ver := ver, h := h } }).setPc (.fr h) (.wLock f v n ver)) g m := by
     intro g m hm hne
@@ -107,6 +107,7 @@ theorem Inv.wCons {s : State} (hI : Inv s) {h f v n ver : Nat} (hp : s.pc (.fr h
     exact ⟨h1, h2, NChain.upd_notin hnt' h3, h4, h5⟩
   case noRead => first | (inv_auto; done) | (trace "FAIL noRead"; sorry)
   case cTakeOk => first | (inv_auto; done) | (trace "FAIL cTakeOk"; sorry)
+  case cRemoveOk => first | (inv_auto; done) | (trace "FAIL cRemoveOk"; sorry)
   case allocUsed => first | (inv_auto; done) | (trace "FAIL allocUsed"; sorry)
   case noBad => first | (inv_auto; done) | (trace "FAIL noBad"; sorry)
 
